@@ -396,7 +396,7 @@ fn blocks(t: Tier) -> Vec<Block> {
         v.push(Block { degree: 2, first: a, thirds: vec![] });
     }
     let thirds: Vec<i8> = match t {
-        Tier::Quick => vec![0, 1, -3, 50, -100, 127, -127],
+        Tier::Quick => vec![0, 1, -1, 2, -3, 7, -12, 25, 50, -77, 99, -100, 101, 126, 127, -127],
         Tier::Thorough => (-127i8..=127).collect(),
     };
     for a in -127i8..=127 {
@@ -486,7 +486,7 @@ pub fn property() -> Property {
             }),
             Box::new(EnumSub {
                 name: "i8-exhaustive",
-                rule: "the sixteen 8-bit types, exhaustively: all 255^2 vectors of degree 2, and degree 3 with the third value from {0,1,-3,50,-100,127,-127} (quick) or all 255^3 vectors (thorough); one case = one block with the first value fixed, inner = rule evaluations; oracle as in i8-random (look-up table read through min*(a,b) at every distance |a|-|b|)",
+                rule: "the sixteen 8-bit types, exhaustively: all 255^2 vectors of degree 2, and degree 3 with the third value from a 16-value set incl. 0, +-1, 99/100/101, +-127 (quick) or all 255^3 vectors (thorough); one case = one block with the first value fixed, inner = rule evaluations; oracle as in i8-random (look-up table read through min*(a,b) at every distance |a|-|b|)",
                 cases: blocks,
                 check: check_block,
                 exhaustive: true,
@@ -494,7 +494,7 @@ pub fn property() -> Property {
             Box::new(Sub {
                 name: "i8-random",
                 rule: "the sixteen 8-bit types, degree 3..=30, values in [-127,127] (uniform; magnitudes 90..127 and 100..127 so that partial hard-limiting triggers; small; tied minima), distinct non-monotone source tags; oracle per emitted message: exactly one per neighbour with dest = that neighbour's source; never -128; |y - 8 f(x/8)| <= 0.5 L with f the own real-valued min*-approximation (sequential fold) resp. exact box-plus (A-Min*: others for the least reliable neighbour, all inputs for every other neighbour) and L the table look-ups on the path; magnitude <= smallest other magnitude; sign = product of the other signs when the reference exceeds the tolerance; partial-hard-limit types: +-127 only if the reference >= 100 - tol, otherwise |y| < 100; non-trivial = degree >= 3 and reference >= 1 unit",
-                cases: |t| t.pick(20_000, 2_000_000),
+                cases: |t| t.pick(300_000, 10_000_000),
                 strategy: i8_strategy,
                 check: check_i8,
                 health: &[("argmin-tie", 0.05), ("output-magnitude>=1", 0.60), ("hard-limit-taken", 0.10)],
@@ -502,7 +502,7 @@ pub fn property() -> Property {
             Box::new(Sub {
                 name: "float",
                 rule: "the eight float types, degree 2..=30, values in the working range (|x| <= 30 for f64, <= 12 for f32) by classes (uniform, all equal magnitude, one tiny/zero, two equal minima, zeros, near 100/8 and 127/8, all strong); oracle against the own exact box-plus fold: one message per neighbour; sign; magnitude <= smallest other + tol; phi/tanh within 16 eps ((d + sum phi(|x_j|)) e^|y|/2 + d + |y|); A-Min*: box-plus of the others for the least reliable neighbour, of all inputs for the others, tol 16 eps d (max|x|+1); min*-approx inside [max(0, exact-(d-2) ln2), exact] and equal to its documented sequential definition; non-trivial = degree >= 3 and an exact output magnitude >= 0.1",
-                cases: |t| t.pick(20_000, 2_000_000),
+                cases: |t| t.pick(300_000, 10_000_000),
                 strategy: f_strategy,
                 check: check_f,
                 health: &[("argmin-tie", 0.05), ("output-magnitude>=0.1", 0.60)],
@@ -510,7 +510,7 @@ pub fn property() -> Property {
             Box::new(Sub {
                 name: "float-wide",
                 rule: "tanh, min*-approx and A-Min* float types at any magnitude up to 1e30 (incl. 0, subnormal): one message per neighbour, sign and 'never larger than the smallest other magnitude' clauses only (the phi rule saturates outside its working range by design and is excluded); non-trivial = degree >= 3 with a magnitude above 40",
-                cases: |t| t.pick(20_000, 1_000_000),
+                cases: |t| t.pick(200_000, 5_000_000),
                 strategy: wide_strategy,
                 check: check_wide,
                 health: &[],
